@@ -351,10 +351,14 @@ Fixpoint script_obs (s : sst) (l : list sstep) : list pobs :=
 Definition script_init (nsealed : nat) : sst := mks (mkp (repeat pf_loaded_sealed nsealed ++ [pf_new]) false) [].
 Definition script_final (nsealed : nat) (l : list sstep) : sst := fold_left script_step l (script_init nsealed).
 
+(* readonly means nothing once both pointers are nil (trySetSuicided leaves it as it was; setting it there would be
+   a harmless change) *)
+Definition px_canon (x : px) : px := if x_active x || x_sealed x then x else mkpx false false false.
+
 Definition pobs_eqb (a b : pobs) : bool :=
   Bool.eqb (po_alive a) (po_alive b) &&
   (negb (po_alive a) ||     (* a dead process has no fields to look at *)
-   list_eqb (fun x y => Bool.eqb (fst x) (fst y) && px_eqb (snd x) (snd y)) (po_fr a) (po_fr b)).
+   list_eqb (fun x y => Bool.eqb (fst x) (fst y) && px_eqb (px_canon (snd x)) (px_canon (snd y))) (po_fr a) (po_fr b)).
 
 Fixpoint fin_agree (m : list pfrac) (fin : list pfin) : bool :=
   match m, fin with
